@@ -359,3 +359,7 @@ def c13_symlink_target_lstat_outside(rp):    # fixed 534f324
 def c06_success_deferred_request(rp):       # fixed 2acdd0f
     # the scripted session 'D': answers during a re-key that holds the client's next request back
     return rp.get('kind') == 'success_without_request' and rp.get('script') == 'D'
+
+
+def c15_cr_only_line_endings(rp):            # known
+    return rp.get('group') == 'line_endings CR only'
